@@ -24,8 +24,9 @@ func Canon(roots ...interface{}) string {
 }
 
 type canon struct {
-	b   strings.Builder
-	ids map[unsafe.Pointer]int
+	b           strings.Builder
+	ids         map[unsafe.Pointer]int
+	plainSlices int // > 0: inside the sync.Pool shim, whose item list is a model artefact (only its contents count)
 }
 
 func access(v reflect.Value) reflect.Value {
@@ -87,6 +88,10 @@ func (c *canon) walk(v reflect.Value, depth int) {
 		}
 		c.walk(e, depth+1)
 	case reflect.Struct:
+		if strings.HasSuffix(t.PkgPath(), "zzverif/sync") && t.Name() == "Pool" {
+			c.plainSlices++
+			defer func() { c.plainSlices-- }()
+		}
 		c.b.WriteString("{")
 		if !v.CanAddr() {
 			cp := reflect.New(t).Elem()
@@ -109,7 +114,9 @@ func (c *canon) walk(v reflect.Value, depth int) {
 		}
 		// length, capacity and the identity of the backing array are part of the state: what a later
 		// append or in-place edit does to OTHER slices depends on them
-		if v.Cap() > 0 {
+		if c.plainSlices > 0 {
+			fmt.Fprintf(&c.b, "[%d:", v.Len())
+		} else if v.Cap() > 0 {
 			p := unsafe.Pointer(v.Pointer())
 			id, ok := c.ids[p]
 			if !ok {
